@@ -645,15 +645,21 @@ func scenarios(thorough bool) []scen {
 			}
 		}
 	}
-	// 2b. thorough: every MTU of two bands (the minimum and up, the maximum and down) with a long module list and
+	// 2b. every MTU of a band above the minimum (thorough: a wider band, and one below the maximum) (the minimum and up, the maximum and down) with a long module list and
 	// values several messages long in both directions
-	if thorough {
+	{
 		var band []uint16
-		for m := 1300; m <= 1560; m++ {
+		hi := 1345 // every residue of the chunk arithmetic modulo the encoded name lengths in use
+		if thorough {
+			hi = 1560
+		}
+		for m := 1300; m <= hi; m++ {
 			band = append(band, uint16(m))
 		}
-		for m := 65400; m <= 65535; m += 3 {
-			band = append(band, uint16(m))
+		if thorough {
+			for m := 65400; m <= 65535; m += 3 {
+				band = append(band, uint16(m))
+			}
 		}
 		for _, m := range band {
 			add(scen{Label: "band-modules", RecvMTU: m, SendMTU: m, Extra: 150, ExtraLen: 12,
